@@ -13,6 +13,20 @@ def exec (a : List String) : String :=
        let ok := runs.all (· == "true;END")
        "|".intercalate runs ++ "|" ++ (if ok then "ID-OK" else "ID-FAIL")
      | _, _ => "BAD-HEX")
+  | ["ord", ps, i] =>
+    -- order-sensitive programs on an array: the model's run lines; the model's own verdict is `ID-OK`
+    -- exactly when its `sort` output is ordered under `JV.cmp` (proved: Props/C25 `sort_sorted_perm`)
+    (match C23.hexToString ps, C23.hexToString i with
+     | some progs, some input =>
+       let runs := (progs.splitOn "\n").map fun p => C23.runProgram {} p input
+       let ok : Bool :=
+         match (readJson input : Option (JV JNum)) with
+         | some (.arr xs) =>
+           let s := JV.sort xs
+           (s.zip (s.drop 1)).all fun (a, b) => JV.cmp a b != .gt
+         | _ => false
+       "|".intercalate runs ++ "|" ++ (if ok then "ID-OK" else "ID-FAIL")
+     | _, _ => "BAD-HEX")
   | _ => "BAD-OP"
 
 end SV.Drv.C25
